@@ -5,7 +5,7 @@
   ./run --job <job-id> [-v]         run one job, print its obligations
   ./run --replay <file>             re-run the native replay recorded in a replay file
   ./run --list                      list properties / jobs
-  ./run --mutants [Cxx ...]         sensitivity self-test: known mutants (obligations/Cxx/mutants.json) must be caught
+  ./run --mutants [Cxx ...]         sensitivity self-test: known mutants (obligations/Cxx/mutants.json + mutants_*.json) must be caught
 
 Exit status: 0 = every obligation discharged (known findings are printed, not failed),
              1 = an obligation that is not a known finding failed (VIOLATION line printed),
@@ -676,11 +676,14 @@ def run_mutants(prop):
     sources) must make the named job fail with an obligation matching 'expect'. Never touches /repo."""
     import codecs
     global REPO, SRC
-    mp = os.path.join(VERIF, "obligations", prop, "mutants.json")
-    if not os.path.exists(mp):
+    import glob
+    mps = sorted(glob.glob(os.path.join(VERIF, "obligations", prop, "mutants.json")) + glob.glob(os.path.join(VERIF, "obligations", prop, "mutants_*.json")))
+    if not mps:
         print("no mutants.json for", prop)
         return 0
-    muts = json.load(open(mp))
+    muts = []
+    for mp in mps:      # mutants.json + mutants_<topic>.json, merged the way index_*.json are
+        muts += json.load(open(mp))
     missed = 0
     save = (REPO, SRC)
     for m in muts:
